@@ -571,6 +571,14 @@ func (z *Z) def(d Def, indentOK bool) []string {
 		s += sp(z.s.Intn(3)) + dest
 	}
 	if d.Title != nil {
+		// a title may run over several lines; they are lines of a paragraph, so their leading white space is not
+		// part of the title (the expected value is the bare line ending)
+		for i, p := range d.Title.P {
+			if p.Src == " " && p.Val == " " && coin(z.s, 1, 4) {
+				d.Title.P[i] = Piece{"\n" + sp(z.s.Intn(4)), "\n"}
+				z.note("def-title-multiline")
+			}
+		}
 		if coin(z.s, 1, 3) {
 			s += "\n" + sp(z.s.Intn(3)) + z.pieces(d.Title.P)
 			z.note("def-title-nextline")
